@@ -299,55 +299,84 @@ theorem Same.refl (fs : ArchFs) : Same fs fs := ⟨rfl, fun _ => rfl⟩
 theorem Same.trans {a b c : ArchFs} (h₁ : Same a b) (h₂ : Same b c) : Same a c :=
   ⟨h₂.1.trans h₁.1, fun m => (h₂.2 m).trans (h₁.2 m)⟩
 
-theorem squatted_put_archive {n : Name} {a : Archive} {l : List (Name × Node)} (h : squatted l n = false) (m : Name) :
-    squatted (put n (.archive a) l) m = squatted l m := by
+theorem squatted_put_file {n : Name} {v : Node} {l : List (Name × Node)} (hv : v ≠ .dir ∧ v ≠ .dangling)
+    (h : squatted l n = false) (m : Name) : squatted (put n v l) m = squatted l m := by
   by_cases hm : m = n
   · subst hm
-    simp [squatted, lookup_put_same] at h ⊢
-    exact h.symm ▸ rfl
+    rw [h]
+    simp only [squatted, lookup_put_same]
+    cases v <;> simp_all
   · simp [squatted, lookup_put_other hm]
 
-theorem writeToFile_ok {fails : Nat → Bool} {fs : ArchFs} {a : Archive}
-    (h : (rootBad fs.root || fails a.header.logId || squatted fs.nodes a.fileName) = false) :
+theorem squatted_put_archive {n : Name} {a : Archive} {l : List (Name × Node)} (h : squatted l n = false) (m : Name) :
+    squatted (put n (.archive a) l) m = squatted l m :=
+  squatted_put_file ⟨by simp, by simp⟩ h m
+
+theorem bites_false {f : Fault} (h : f.bites = false) : f = .none := by
+  cases f <;> simp_all [Fault.bites]
+
+theorem writeToFile_ok {fails : Nat → Fault} {fs : ArchFs} {a : Archive}
+    (h : (rootBad fs.root || (fails a.header.logId).bites || squatted fs.nodes a.fileName) = false) :
     writeToFile fails fs a = (true, { root := .dir, nodes := put a.fileName (.archive a) fs.nodes }) := by
   simp only [Bool.or_eq_false_iff] at h
   obtain ⟨⟨h₁, h₂⟩, h₃⟩ := h
+  have h₂ := bites_false h₂
   unfold writeToFile
   cases hr : fs.root <;> simp_all [rootBad]
 
-theorem writeToFile_err {fails : Nat → Bool} {fs : ArchFs} {a : Archive}
-    (h : (rootBad fs.root || fails a.header.logId || squatted fs.nodes a.fileName) = true) :
-    (writeToFile fails fs a).1 = false ∧ (writeToFile fails fs a).2.nodes = fs.nodes
-      ∧ rootBad (writeToFile fails fs a).2.root = rootBad fs.root := by
+/-- A failed `write_to_file`: `Err`; the root is as creatable as before; only the archive's own
+name may have changed (to an undecodable file), never into something that blocks `File::create`. -/
+theorem writeToFile_err {fails : Nat → Fault} {fs : ArchFs} {a : Archive}
+    (h : (rootBad fs.root || (fails a.header.logId).bites || squatted fs.nodes a.fileName) = true) :
+    (writeToFile fails fs a).1 = false
+      ∧ rootBad (writeToFile fails fs a).2.root = rootBad fs.root
+      ∧ (∀ m, m ≠ a.fileName → lookup m (writeToFile fails fs a).2.nodes = lookup m fs.nodes)
+      ∧ (∀ m, squatted (writeToFile fails fs a).2.nodes m = squatted fs.nodes m)
+      ∧ (∀ b, lookup a.fileName (writeToFile fails fs a).2.nodes = some (.archive b) →
+          lookup a.fileName fs.nodes = some (.archive b)) := by
+  obtain ⟨root, nodes⟩ := fs
   unfold writeToFile
-  cases hr : fs.root <;> simp_all [rootBad]
-  all_goals (split <;> simp_all [rootBad])
+  cases root
+  case isFile => simp [rootBad]
+  case blocked => simp [rootBad]
+  all_goals
+    simp only [rootBad, Bool.false_or] at h ⊢
+    cases hs : squatted nodes a.fileName
+    · cases hf : fails a.header.logId
+      · simp [hs, hf, Fault.bites] at h
+      · simp [hf]
+      · simp only [hs, hf, Bool.or_false]
+        refine ⟨by simp, by simp, fun m hm => ?_, fun m => ?_, fun b hb => ?_⟩
+        · simpa using lookup_put_other hm _ _
+        · simpa using squatted_put_file (v := .junk) ⟨by simp, by simp⟩ hs m
+        · simp [lookup_put_same] at hb
+    · simp [hs]
 
-theorem writeToFile_fst (fails : Nat → Bool) (fs : ArchFs) (a : Archive) :
-    (writeToFile fails fs a).1 = !(rootBad fs.root || fails a.header.logId || squatted fs.nodes a.fileName) := by
-  cases h : (rootBad fs.root || fails a.header.logId || squatted fs.nodes a.fileName)
+theorem writeToFile_fst (fails : Nat → Fault) (fs : ArchFs) (a : Archive) :
+    (writeToFile fails fs a).1 = !(rootBad fs.root || (fails a.header.logId).bites || squatted fs.nodes a.fileName) := by
+  cases h : (rootBad fs.root || (fails a.header.logId).bites || squatted fs.nodes a.fileName)
   · rw [writeToFile_ok h]; rfl
   · rw [(writeToFile_err h).1]; rfl
 
-theorem writeToFile_same (fails : Nat → Bool) (fs : ArchFs) (a : Archive) : Same fs (writeToFile fails fs a).2 := by
-  cases h : (rootBad fs.root || fails a.header.logId || squatted fs.nodes a.fileName)
+theorem writeToFile_same (fails : Nat → Fault) (fs : ArchFs) (a : Archive) : Same fs (writeToFile fails fs a).2 := by
+  cases h : (rootBad fs.root || (fails a.header.logId).bites || squatted fs.nodes a.fileName)
   · rw [writeToFile_ok h]
     simp only [Bool.or_eq_false_iff] at h
     exact ⟨by show rootBad Root.dir = rootBad fs.root; rw [h.1.1]; rfl, fun m => squatted_put_archive h.2 m⟩
-  · obtain ⟨_, h₂, h₃⟩ := writeToFile_err h
-    exact ⟨h₃, fun m => by rw [h₂]⟩
+  · obtain ⟨_, h₂, _, h₄, _⟩ := writeToFile_err h
+    exact ⟨h₂, h₄⟩
 
-theorem writeToFile_lookup_other (fails : Nat → Bool) (fs : ArchFs) (a : Archive) {m : Name}
+theorem writeToFile_lookup_other (fails : Nat → Fault) (fs : ArchFs) (a : Archive) {m : Name}
     (hm : m ≠ a.fileName) : lookup m (writeToFile fails fs a).2.nodes = lookup m fs.nodes := by
-  cases h : (rootBad fs.root || fails a.header.logId || squatted fs.nodes a.fileName)
+  cases h : (rootBad fs.root || (fails a.header.logId).bites || squatted fs.nodes a.fileName)
   · rw [writeToFile_ok h]
     exact lookup_put_other hm _ _
-  · rw [(writeToFile_err h).2.1]
+  · exact (writeToFile_err h).2.2.1 m hm
 
-theorem writeToFile_lookup_self {fails : Nat → Bool} {fs : ArchFs} {a : Archive}
+theorem writeToFile_lookup_self {fails : Nat → Fault} {fs : ArchFs} {a : Archive}
     (h : (writeToFile fails fs a).1 = true) :
     lookup a.fileName (writeToFile fails fs a).2.nodes = some (.archive a) := by
-  cases h' : (rootBad fs.root || fails a.header.logId || squatted fs.nodes a.fileName)
+  cases h' : (rootBad fs.root || (fails a.header.logId).bites || squatted fs.nodes a.fileName)
   · rw [writeToFile_ok h']
     exact lookup_put_same _ _ _
   · rw [(writeToFile_err h').1] at h
@@ -356,7 +385,7 @@ theorem writeToFile_lookup_self {fails : Nat → Bool} {fs : ArchFs} {a : Archiv
 /-! ## `archive_log`, `archive_logs_up_to` -/
 
 section Pass
-variable {L : Type} (p : Parser L) (fails : Nat → Bool) (shard : Nat)
+variable {L : Type} (p : Parser L) (fails : Nat → Fault) (shard : Nat)
 
 /-- Why `archive_log(id)` returns `Err`, as a function of the log directory and of the parts of
 the archive directory that no archive attempt changes: no file under the canonical name, the
@@ -366,7 +395,7 @@ def failsFor (wal : List (WalFile L)) (fs : ArchFs) (id : Nat) : Bool :=
   match findFile wal (walName id) with
   | none => true
   | some f => !f.readable ||
-      (rootBad fs.root || fails id || squatted fs.nodes (mkArchive p shard id f.lines).fileName)
+      (rootBad fs.root || (fails id).bites || squatted fs.nodes (mkArchive p shard id f.lines).fileName)
 
 theorem failsFor_same {wal : List (WalFile L)} {fs fs' : ArchFs} (h : Same fs fs') (id : Nat) :
     failsFor p fails shard wal fs' id = failsFor p fails shard wal fs id := by
@@ -668,22 +697,24 @@ theorem listArchives_sorted_by_id {nodes : List (Name × Node)} (hstd : Standard
 
 /-! ## the archive root after a pass; from a directory entry to `recover_all` -/
 
-theorem writeToFile_root_of_ok {fails : Nat → Bool} {fs : ArchFs} {a : Archive}
+theorem writeToFile_root_of_ok {fails : Nat → Fault} {fs : ArchFs} {a : Archive}
     (h : (writeToFile fails fs a).1 = true) : (writeToFile fails fs a).2.root = .dir := by
-  cases h' : (rootBad fs.root || fails a.header.logId || squatted fs.nodes a.fileName)
+  cases h' : (rootBad fs.root || (fails a.header.logId).bites || squatted fs.nodes a.fileName)
   · rw [writeToFile_ok h']
   · rw [(writeToFile_err h').1] at h
     cases h
 
-theorem writeToFile_root_dir (fails : Nat → Bool) {fs : ArchFs} (a : Archive) (h : fs.root = .dir) :
+theorem writeToFile_root_dir (fails : Nat → Fault) {fs : ArchFs} (a : Archive) (h : fs.root = .dir) :
     (writeToFile fails fs a).2.root = .dir := by
   unfold writeToFile
   rw [h]
   simp only
-  split <;> rfl
+  split
+  · rfl
+  · split <;> rfl
 
 section Root
-variable {L : Type} (p : Parser L) (fails : Nat → Bool) (shard : Nat)
+variable {L : Type} (p : Parser L) (fails : Nat → Fault) (shard : Nat)
 
 theorem archiveLog_root_of_ok {wal : List (WalFile L)} {fs : ArchFs} {id : Nat}
     (h : (archiveLog p fails shard wal fs id).1 = true) : (archiveLog p fails shard wal fs id).2.root = .dir := by
@@ -766,7 +797,7 @@ theorem recoverAll_contains {fs : ArchFs} (hroot : fs.root = .dir) {n : Name} {a
 /-! ## histories of conservative cleanups -/
 
 section History
-variable {L : Type} (p : Parser L) (fails : Nat → Bool) (shard : Nat)
+variable {L : Type} (p : Parser L) (fails : Nat → Fault) (shard : Nat)
 
 /-- `n` is a name the archive pass over `wal` may write. -/
 def Writes (bound : Nat) (wal : List (WalFile L)) (n : Name) : Prop :=
